@@ -232,4 +232,4 @@ def run(ctx):
                         "queries": [core.cond_text((b, a), names) for _, b, a in c["queries"]], "answers": impl["answers"],
                         "cube": resp[tags.index("cube")], "vMin": impl.get("vMin"), "fMin": impl.get("fMin")})
         for f in compare(c, impl, resp, tags):
-            ctx.failures.append(shrink(f))
+            ctx.fail(f, shrink)
